@@ -344,6 +344,14 @@ func ruleGRDcap(w *World, r *Report) {
 			if !(mentionsParam(bo.X, s.param, 0) || mentionsParam(bo.Y, s.param, 0)) {
 				return false
 			}
+			// a comparison of a COUNT with the parameter — `k <= 0` (the guard against a negative k) compares it with a
+			// constant and caps nothing
+			if _, isConst := stripConv(bo.X).(*ssa.Const); isConst {
+				return false
+			}
+			if _, isConst := stripConv(bo.Y).(*ssa.Const); isConst {
+				return false
+			}
 			_, isIf := firstIf(bo)
 			return isIf
 		}
